@@ -3,6 +3,7 @@
 package c18
 
 import (
+	"crypto/sha256"
 	"encoding/json"
 	"fmt"
 	"os"
@@ -90,6 +91,17 @@ func (p parsed) fingerprint() string {
 		}
 		for _, l := range p.Client.ListenList {
 			fmt.Fprintf(&sb, " %T:%v", l, l)
+		}
+	}
+	// everything else the parse produced (certificates, endpoints, options): exported fields as JSON
+	if p.Server != nil {
+		if b, err := json.Marshal(p.Server); err == nil {
+			fmt.Fprintf(&sb, " server=%x", sha256.Sum256(b))
+		}
+	}
+	if p.Client != nil {
+		if b, err := json.Marshal(p.Client); err == nil {
+			fmt.Fprintf(&sb, " client=%x", sha256.Sum256(b))
 		}
 	}
 	return sb.String()
